@@ -39,6 +39,52 @@ def Node.ps : Node → PSInfo
   | .chars _ _ ps .. | .comment _ _ ps .. | .group _ _ ps .. | .mac _ _ ps .. | .env _ _ ps ..
   | .specials _ _ ps .. | .math _ _ ps .. => ps
 
+/-- the nodes an argument slot holds -/
+def Arg.nodes : Arg → List Node
+  | .absent => []
+  | .node n => [n]
+  | .list _ _ ns => ns
+
+def argNodes (a : Option (List Arg)) : List Node := (a.getD []).flatMap Arg.nodes
+
+/-- direct children in document order: arguments first, then the body -/
+def Node.children : Node → List Node
+  | .chars .. => []
+  | .comment .. => []
+  | .group _ _ _ _ _ b => b.getD []
+  | .mac _ _ _ _ _ a => argNodes a
+  | .env _ _ _ _ a b => argNodes a ++ b.getD []
+  | .specials _ _ _ _ a => argNodes a
+  | .math _ _ _ _ _ _ b => b.getD []
+
+mutual
+/-- every node of the tree rooted at `n` (pre-order) -/
+def Node.subnodes : Node → List Node
+  | n@(.chars ..) => [n]
+  | n@(.comment ..) => [n]
+  | n@(.group _ _ _ _ _ b) => n :: subnodesBody b
+  | n@(.mac _ _ _ _ _ a) => n :: subnodesArgs a
+  | n@(.env _ _ _ _ a b) => n :: (subnodesArgs a ++ subnodesBody b)
+  | n@(.specials _ _ _ _ a) => n :: subnodesArgs a
+  | n@(.math _ _ _ _ _ _ b) => n :: subnodesBody b
+def subnodesBody : Option (List Node) → List Node
+  | none => []
+  | some ns => subnodesList ns
+def subnodesList : List Node → List Node
+  | [] => []
+  | n :: ns => n.subnodes ++ subnodesList ns
+def subnodesArgs : Option (List Arg) → List Node
+  | none => []
+  | some l => subnodesArgList l
+def subnodesArgList : List Arg → List Node
+  | [] => []
+  | a :: l => subnodesArg a ++ subnodesArgList l
+def subnodesArg : Arg → List Node
+  | .absent => []
+  | .node n => n.subnodes
+  | .list _ _ ns => subnodesList ns
+end
+
 def showPS (ps : PSInfo) : String :=
   if ps.inMath then "m" ++ showOptStr ps.mathDelim else "t"
 
